@@ -7,6 +7,7 @@ This module contains functions which are imported as methods in the `FST` class 
 
 from __future__ import annotations
 
+from cmath import isfinite
 from itertools import takewhile
 from types import FunctionType, NoneType
 from typing import Any, Callable, Mapping, NamedTuple
@@ -446,6 +447,35 @@ def _fix_joined_alnums_prim(self: fst.FST, src: str, ln: int, col: int) -> None:
         self._put_src([' '], ln, col, ln, col, False)
 
 
+def _validate_put_pattern_constant(self: fst.FST, value: constant) -> None:
+    """`self` is a `Constant` somewhere below a pattern, `MatchValue.value` or one of `MatchMapping.keys`, itself or as
+    an operand in a negative or complex number. Check that the expression with the primitive `value` as the value of the
+    `Constant` is still valid for that field, the same check which the put of an expression node to the field does."""
+
+    top = self
+
+    while (parent := top.parent).a.__class__ not in ASTS_LEAF_PATTERN:
+        top = parent
+
+    ast = self.a
+    parent_cls = parent.a.__class__
+    is_valid = is_valid_MatchMapping_key if parent_cls is MatchMapping else is_valid_MatchValue_value
+    old_value = ast.value
+    ast.value = value
+
+    try:
+        valid = is_valid(top.a)
+    finally:
+        ast.value = old_value
+
+    if not valid:
+        raise NodeError(f'invalid value for {parent_cls.__name__}.{top.pfield.name}, cannot put {value!r} '
+                        f'to Constant.value{"" if top is self else f" in {top.a.__class__.__name__}"}')
+
+    if isinstance(value, (float, complex)) and not isfinite(value):  # 'inf' and 'nan' are not literals, a name here is a capture pattern
+        raise NodeError(f'cannot put {value!r} to Constant.value in a pattern')
+
+
 def _put_one_constant(
     self: fst.FST,
     code: _PutOneCode,
@@ -474,6 +504,9 @@ def _put_one_constant(
 
     if (value < 0 if isinstance(value, (int, float)) else value.imag < 0 if isinstance(value, complex) else False):
         raise NodeError('Constant.value cannot be negative')
+
+    if self.a.__class__ is Constant and self.parent_pattern():  # not everything which is a constant can be a literal in a pattern
+        _validate_put_pattern_constant(self, value)
 
     ln, col, _, _ = self.loc
     src = repr(value)
